@@ -599,6 +599,14 @@ func uninitMatrix() {
 			switch {
 			case zero == 0:
 				in[0] = reflect.ValueOf(new(Point))
+			case zero >= 200: // element of a []*Point, paired with a ZERO scalar at the same index
+				s := in[zero-200].Interface().([]*Point)
+				s[1] = new(Point)
+				for a := 1; a < len(in); a++ {
+					if ss, ok := in[a].Interface().([]*Scalar); ok {
+						ss[1] = secp256k1.NewScalar()
+					}
+				}
 			case zero >= 100: // element of a []*Point
 				s := in[zero-100].Interface().([]*Point)
 				s[1] = new(Point)
@@ -641,6 +649,11 @@ func uninitMatrix() {
 				n++
 				if !call(100 + a) {
 					R.Fail(fmt.Sprintf("uninit/%s/list element zero-value accepted", m.Name), "misc", map[string]any{"method": m.Name, "what": "uninitialised Point inside a list did not panic"}, nil)
+				}
+				R.T(1)
+				n++
+				if !call(200 + a) {
+					R.Fail(fmt.Sprintf("uninit/%s/list element zero-value with zero scalar accepted", m.Name), "misc", map[string]any{"method": m.Name, "what": "uninitialised Point inside a list, paired with a zero scalar, did not panic"}, nil)
 				}
 			}
 		}
@@ -735,6 +748,23 @@ func scribble(k any) int {
 		}
 	}
 	return n
+}
+
+// retain collects the []byte results of all accessors (the originals and private copies).
+func retain(k any) (held, copies [][]byte) {
+	v := reflect.ValueOf(k)
+	t := v.Type()
+	for i := 0; i < t.NumMethod(); i++ {
+		m := t.Method(i)
+		if m.Type.NumIn() != 1 || m.Type.NumOut() != 1 {
+			continue
+		}
+		if b, ok := m.Func.Call([]reflect.Value{v})[0].Interface().([]byte); ok {
+			held = append(held, b)
+			copies = append(copies, append([]byte{}, b...))
+		}
+	}
+	return
 }
 
 func immutability() {
@@ -833,6 +863,20 @@ func immutability() {
 		if after := observe(key); after != before {
 			R.Fail("immutability/"+c.name+"/input mutated after construction", "immut", map[string]any{"constructor": c.name, "what": "mutating the values passed to the constructor changed the key's behaviour", "before": trunc(before), "after": trunc(after)}, nil)
 			continue
+		}
+		// retained outputs: values handed out earlier must not change when a twin key (same value, other object)
+		// is observed and ITS outputs are scribbled over (shared backing arrays / shared scratch objects)
+		held, heldCopies := retain(key)
+		tw2, _ := c.mk()
+		observe(tw2)
+		scribble(tw2)
+		R.T(1)
+		cells++
+		for i := range held {
+			if !bytes.Equal(held[i], heldCopies[i]) {
+				R.Fail("immutability/"+c.name+"/retained output changed", "immut", map[string]any{"constructor": c.name, "what": "a byte slice returned earlier by an accessor changed when another key object was used (shared backing array)"}, nil)
+				break
+			}
 		}
 		n := scribble(key) // caller mutates everything the key handed out
 		if pk, ok := key.(*secec.PrivateKey); ok {
